@@ -5,7 +5,7 @@
      model.BuildNodeMapFromPackages    [has_dup]
      analysis.BuildGraph               [has_missing] [has_self] [find_cycle] [has_conflict]
        dag.AddEdge, dag.FindCycle, analysis.detectOutputConflicts / targetsAreOrdered /
-       getAncestorSet
+       getAncestorSet / cleanOutputPath (reads the workspace root from config.Global, [rootc] here)
      analysis.CheckTargetConstraints   [has_bad_input] [has_bad_output] [has_test_nocmd]
                                        [has_bad_dep]
 
@@ -151,16 +151,18 @@ Definition all_outputs (t : target) : list output :=
 
 Record orec := mkRec { r_owner : label; r_type : otype; r_key : str }.
 
-Definition rec_of (t : target) (o : output) : orec :=
+(* path outputs are keyed by cleanOutputPath, which reads config.Global.WorkspaceRoot: the
+   workspace-relative form of the place the output denotes *)
+Definition rec_of (rootc : list str) (t : target) (o : output) : orec :=
   mkRec (t_label t) (o_type o)
         (match o_type o with
          | ODocker => o_id o
-         | _ => clean_output_path (lpkg (t_label t)) (o_id o)
+         | _ => clean_output_path rootc (lpkg (t_label t)) (o_id o)
          end).
 
-Definition records (g : nodes) : list orec :=
+Definition records (rootc : list str) (g : nodes) : list orec :=
   flat_map (fun n => match n with
-                     | NTarget t => map (rec_of t) (all_outputs t)
+                     | NTarget t => map (rec_of rootc t) (all_outputs t)
                      | NAlias _ _ => []
                      end) g.
 
@@ -183,8 +185,8 @@ Fixpoint pairs {A : Type} (l : list A) : list (A * A) :=
   | x :: r => map (pair x) r ++ pairs r
   end.
 
-Definition has_conflict (g : nodes) : bool :=
-  existsb (fun p => conflict_pair g (fst p) (snd p)) (pairs (records g)).
+Definition has_conflict (rootc : list str) (g : nodes) : bool :=
+  existsb (fun p => conflict_pair g (fst p) (snd p)) (pairs (records rootc g)).
 
 (* ---------------------------------------------------------------- CheckTargetConstraints *)
 Definition test_lit : str := ["t"; "e"; "s"; "t"]%char.
@@ -247,12 +249,12 @@ Definition edge_classes (g : nodes) : list cls :=
   flag (has_missing g) Missing ++ flag (has_self g) SelfLoop.
 
 (* what BuildGraph can report *)
-Definition graph_classes (g : nodes) : list cls :=
+Definition graph_classes (rootc : list str) (g : nodes) : list cls :=
   match edge_classes g with
   | [] => match find_cycle g with
           | DfsCycle => [Cycle]
           | DfsFuel => [CycleFuel]
-          | DfsDone _ => flag (has_conflict g) Conflict
+          | DfsDone _ => flag (has_conflict rootc g) Conflict
           end
   | e => e
   end.
@@ -264,7 +266,7 @@ Definition constraint_classes (rootc : list str) (g : nodes) : list cls :=
 
 Definition classes (rootc : list str) (g : nodes) : list cls :=
   if has_dup (labels g) then [Dup]
-  else graph_classes g ++ constraint_classes rootc g.
+  else graph_classes rootc g ++ constraint_classes rootc g.
 
 Inductive verdict := Accept | Reject (cs : list cls).
 
@@ -365,8 +367,10 @@ Definition defect_free (rootc : list str) (g : nodes) : Prop :=
 Definition plain_comp (c : str) : Prop := c <> [] /\ ~ In ch_slash c /\ c <> dot /\ c <> dotdot.
 Definition clean_root (rootc : list str) : Prop := rootc <> [] /\ Forall plain_comp rootc.
 
-(* G2: <pkg>/<id> read as a relative path from the workspace root never leaves the root on the
-   way (it may end AT the root: dir::.. from a top-level package) *)
+(* former guard G2 (gone: conflicts are decided on the workspace-relative form, whatever the
+   spelling), kept to state that the witnesses of the repaired finding lie outside it:
+   <pkg>/<id> read as a relative path from the workspace root never leaves the root on the way
+   (it may end AT the root: dir::.. from a top-level package) *)
 Definition plain_output (t : target) (o : output) : Prop :=
   resolve_from [] (split_slash (lpkg (t_label t)) ++ split_slash (o_id o)) <> None.
 Definition plain_outputs (g : nodes) : Prop :=
@@ -377,7 +381,8 @@ Definition no_self_overlap (rootc : list str) (g : nodes) : Prop :=
   forall t o1 o2, In (NTarget t) g -> In (o1, o2) (pairs (all_outputs t)) ->
     ~ overlap (place_of rootc t o1) (place_of rootc t o2).
 
-(* side conditions: package paths are relative (they come from filepath.Rel) *)
+(* package paths are relative (they come from filepath.Rel) -- met by the witnesses; no theorem
+   needs it any more *)
 Definition rel_pkgs (g : nodes) : Prop := forall t, In (NTarget t) g -> is_abs (lpkg (t_label t)) = false.
 Definition rel_outputs (g : nodes) : Prop :=
   forall t o, In (NTarget t) g -> In o (all_outputs t) -> o_type o <> ODocker -> is_abs (o_id o) = false.
